@@ -3,6 +3,16 @@
 M = r"github\.com/rpcpool/yellowstone-faithful"
 
 PROPS = {
+    "C01": {
+        "level": "exploration",
+        "level_text": "Generated well-formed epoch CARs (reference encoder, own CAR writer, ground-truth section table) are indexed by the repository's own createAllIndexes and every object/slot/signature is looked up through the index readers, a local Epoch, a remote (HTTP ReaderAt + range cache + prefetch) Epoch and /api/v1. Exploration over layout knobs incl. the 10 000-entry bucket boundary; evidence lists the layout signatures reached.",
+        "level_note": "trusts ipld-prime bindnode/dag-cbor, go-cid and the generator's own CAR writer as ground truth; Filecoin/lassie mode and split-piece CARs are not exercised",
+        "technique": "runtime monitoring: generated workloads + ground-truth model oracle over the real indexer and readers",
+        "rule": "see parts",
+        "runs": [
+            {"name": "indexall", "pkg": ".", "run": "^TestVerifC01$", "timeout": "40m", "timeout_thorough": "180m"},
+        ],
+    },
     "C18": {
         "level": "exploration",
         "level_text": "Every feasible completion order of 1..6 gated jobs x every outcome vector x every concurrency limit is executed against the real FirstSuccess (plain and under the race detector); the oracle is the statement itself (value of a finished succeeding job / complete error list / returns). Exhaustive inside that scope, nothing beyond it.",
